@@ -6,7 +6,7 @@ V=/var/tmp/verif-regress; R=/var/tmp/vr-regress
 cd /verif || exit 2
 [ -d $V ] || git worktree add -q --detach $V HEAD
 [ -d $R ] || git -C /repo worktree add -q --detach $R HEAD
-(cd $V && git checkout -q --detach "$(git -C /verif rev-parse HEAD)" && python3 tools/regen_index.py && cd lean && lake build driver > /dev/null 2>&1)
+(cd $V && git checkout -q -- . && git checkout -q -f --detach "$(git -C /verif rev-parse HEAD)" && python3 tools/regen_index.py && cd lean && lake build driver > /dev/null 2>&1)
 IDS=${*:-$(ls /verif/seeded)}
 for id in $IDS; do
   D=/verif/seeded/$id
